@@ -54,7 +54,7 @@ def make_resolver(fq):
         scn.log.append((path, id(parent), freeze(args)))
         scn.events.append(("start", path))
         try:
-            if scn.sched is not None:
+            if scn.sched is not None and (scn.suspend is None or path in scn.suspend):
                 await scn.sched.point(("r",) + path)
             fault = scn.faults.get(path)
             if fault == "raise":
@@ -121,9 +121,15 @@ class PassDirective:
             scn.counters["hook"] += 1
             scn.events.append(("hook", self.name, kind))
 
+    async def _susp(self, ctx, kind, key):
+        scn = scenario_of(ctx)
+        if scn is not None and scn.sched is not None and scn.suspend_hooks:
+            await scn.sched.point(("h", self.name, kind, key))
+
     async def on_argument_execution(self, directive_args, next_directive, parent_node, argument_definition_node,
                                     argument_node, value, ctx):
         self._hit(ctx, "argument")
+        await self._susp(ctx, "argument", argument_definition_node.name.value)
         return await next_directive(parent_node, argument_definition_node, argument_node, value, ctx)
 
     async def on_post_input_coercion(self, directive_args, next_directive, parent_node, value, ctx):
@@ -178,6 +184,8 @@ def register(schema, name, resolvers="all", typecfg=None, subscriptions=None, sk
                     kw = {}
                     if fq in typecfg.get("field", ()):
                         kw["type_resolver"] = _type_resolver("_t_field")
+                    if typecfg.get("resolver_kwargs_all"):
+                        kw.update(typecfg["resolver_kwargs_all"])
                     extra = (typecfg.get("resolver_kwargs") or {}).get(fq)
                     if extra:
                         kw.update(extra)
